@@ -318,3 +318,36 @@ canary('c09-reassemble-by-ref', 'C09', FRAG, "    fn reassemble(mut self) -> Opt
                 }
             }
         } else {""")])
+
+# ---- C02 ----
+DEC = 'crates/erltf/src/decoder.rs'
+canary('c02-prealloc-list', 'C02', DEC, "    let mut elements = Vec::with_capacity((len as usize).min(input.len()));\n\n    for _ in 0..len {\n        let (new_remaining, term) = parse_term(remaining, cache)?;",
+       "    let mut elements = Vec::with_capacity(len as usize);\n\n    for _ in 0..len {\n        let (new_remaining, term) = parse_term(remaining, cache)?;", 'ALLOC:')
+canary('c02-prealloc-fun-borrowed', 'C02', DEC, "    let mut free_vars = Vec::with_capacity((num_free as usize).min(input.len()));\n    for i in 0..num_free {",
+       "    let mut free_vars = Vec::with_capacity(num_free as usize);\n    for i in 0..num_free {", 'ALLOC:')
+canary('c02-inflate-unlimited', 'C02', DEC, "ZlibDecoder::new(rest).take(uncompressed_size as u64 + 1);", "ZlibDecoder::new(rest);", 'unbounded',
+       more=[(DEC, "decoder.get_ref().total_in()", "decoder.total_in()")])
+canary('c02-local-ext-slice', 'C02', DEC, "let local_ext_bytes_len = 8 + nested_len;", "let local_ext_bytes_len = 9 + nested_len;", 'PANIC:')
+canary('c02-flags-len', 'C02', DEC, "let flags_len = (num_atom_cache_refs as usize) / 2 + 1;", "let flags_len = (num_atom_cache_refs as usize) / 2;", 'PANIC:')
+canary('c02-flag-index', 'C02', DEC, "let flag_byte_index = i as usize / 2;", "let flag_byte_index = i as usize;", 'PANIC:')
+canary('c02-uniq-len', 'C02', DEC, "    let (input, uniq) = take(16usize)(input)?;\n    let (input, index) = be_u32(input)?;\n    let (input, num_free) = be_u32(input)?;\n\n    let (input, module_term) = parse_term(input, cache)?;",
+       "    let (input, uniq) = take(15usize)(input)?;\n    let (input, index) = be_u32(input)?;\n    let (input, num_free) = be_u32(input)?;\n\n    let (input, module_term) = parse_term(input, cache)?;", 'copy_from_slice')
+canary('c02-refs-u32-count', 'C02', DEC, "fn parse_newer_reference<'a>(input: &'a [u8], cache: &AtomCache) -> NomResult<'a, OwnedTerm> {\n    let (input, len) = be_u16(input)?;",
+       "fn parse_newer_reference<'a>(input: &'a [u8], cache: &AtomCache) -> NomResult<'a, OwnedTerm> {\n    let (input, len) = be_u32(input)?;", 'ALLOC:')
+canary('c02-unwrap-utf8', 'C02', DEC, """    let (input, bytes) = take(len as usize)(input)?;
+    let name = str::from_utf8(bytes)
+        .map_err(|_| nom::Err::Failure(NomError::new(input, ErrorKind::Char)))?;
+    Ok((input, OwnedTerm::Atom(Atom::new(name))))
+}
+
+fn parse_small_atom_utf8""", """    let (input, bytes) = take(len as usize)(input)?;
+    let name = str::from_utf8(bytes).unwrap();
+    Ok((input, OwnedTerm::Atom(Atom::new(name))))
+}
+
+fn parse_small_atom_utf8""", 'unwrap')
+canary('c02-binary-prealloc', 'C02', DEC, """    let (input, data) = take(len as usize)(input)?;
+    Ok((input, OwnedTerm::Binary(data.to_vec())))""", """    let mut v: Vec<u8> = Vec::with_capacity(len as usize);
+    let (input, data) = take(len as usize)(input)?;
+    v.extend_from_slice(data);
+    Ok((input, OwnedTerm::Binary(v)))""", 'ALLOC:')
